@@ -753,6 +753,38 @@ class AllNF(Native):
             x=s.items[s.i]; s.i+=1
             f=M.by_closure[re.search(r'\{closure@([^}]*)\}',s.clo.name).group(1)]
             s.state='wait'; return ('call',f,[Ref(Cell('clo',s.clo),[]),x])
+class FilterAllNF(Native):
+    """iter.filter(p).all(q) / .any(q): for each item, p(item) (forks if symbolic); kept items go through q with short-circuit"""
+    any=False
+    def __init__(s,items,pclo,qclo): s.items=items; s.i=0; s.p=pclo; s.q=qclo; s.state='idle'; s.cur=None
+    def clo(s,M,c): return M.by_closure[re.search(r'\{closure@([^}]*)\}',c.name).group(1)]
+    def step(s,M,st):
+        stop=s.any
+        while True:
+            if s.state=='waitp':
+                r=s.pending
+                if r.conc():
+                    s.state='q' if r.v else 'idle'
+                else:
+                    s.state='brp'; return ('branch',r.v)
+            elif s.state=='brp':
+                s.state='q' if s.taken else 'idle'
+            if s.state=='q':
+                s.state='waitq'; return ('call',s.clo(M,s.q),[Ref(Cell('clo',s.q),[]),s.cur])
+            if s.state=='waitq':
+                r=s.pending; s.state='idle'
+                if r.conc():
+                    if r.v==stop: return ('ret',Bool(stop))
+                else:
+                    s.state='brq'; return ('branch',r.v)
+            elif s.state=='brq':
+                s.state='idle'
+                if s.taken==stop: return ('ret',Bool(stop))
+            if s.state=='idle':
+                if s.i>=len(s.items): return ('ret',Bool(not stop))
+                s.cur=s.items[s.i]; s.i+=1
+                # Filter's predicate receives &Item
+                s.state='waitp'; return ('call',s.clo(M,s.p),[Ref(Cell('clo',s.p),[]),Ref(Cell('item',s.cur),[])])
 class WriteFmt(Native):
     '''Formatter::write_fmt over the nightly's template bytes (S5)'''
     def __init__(s,fref,tmpl,args): s.fref=fref; s.t=tmpl; s.args=args; s.i=0; s.k=0; s.wait=False; s.res=ok(Unit())
@@ -897,7 +929,34 @@ def call_model(M,st,fr,callee,args):
         if meth=='is_none': return Bool(e.var=='None')
         if meth=='is_ok': return Bool(e.var=='Ok')
     # ---- Vec / slices / arrays
-    if re.match(r'^Vec::<.*>::new$',c): return PyObj('vec',items=[])
+    if re.match(r'^Vec::<.*>::new$',c) or re.match(r'^Vec::<.*>::with_capacity$',c): return PyObj('vec',items=[])
+    m=re.match(r'^std::vec::from_elem::<(.*)>$',c)
+    if m:
+        if not args[1].conc(): raise Unsupported('vec![x; n] with symbolic n')
+        return PyObj('vec',items=[copy.deepcopy(args[0]) for _ in range(args[1].v)])
+    m=re.match(r'^<Vec<(.*)> as TryInto<\[(.*); (\d+)\]>>::try_into$',c)
+    if m:
+        v=args[0]; n=int(m.group(3))
+        return ok(Arr(list(v.items))) if len(v.items)==n else err(v)
+    m=re.match(r'^<\[(.*); (\d+)\] as Clone>::clone$',c)
+    if m: return copy.deepcopy(deref(args[0]))
+    m=re.match(r'^<&HashMap<.*> as IntoIterator>::into_iter$',c) or re.match(r'^HashMap::<.*>::iter$',c)
+    if m:
+        mp=deref(args[0])
+        if any(sl[2] is not True and sl[2] is not False for sl in mp.slots): raise Unsupported('iterate map with symbolic presence')
+        return PyObj('iter',src='list',items=[Agg('',[Ref(Cell('mapkey',sl[0]),[]),Ref(Cell('mapval',sl[1]),[])]) for sl in mp.slots if sl[2] is True],pos=0)
+    if re.match(r'^<std::collections::hash_map::Iter<.*> as Iterator>::next$',c):
+        it=deref(args[0])
+        if it.pos<len(it.items): it.pos+=1; return some(it.items[it.pos-1])
+        return NONE()
+    m=re.match(r'^<(.*) as Iterator>::filter::<',c)
+    if m:
+        inner=args[0]
+        if inner.kind=='vec': inner=PyObj('iter',src='list',items=list(inner.items),pos=0)
+        return PyObj('iter',src='filter',inner=inner,closure=args[1])
+    m=re.match(r'^<Filter<.*> as Iterator>::(all|any)::<',c)
+    if m:
+        it=deref(args[0]); nf=FilterAllNF(list(it.inner.items[it.inner.pos:]),it.closure,args[1]); nf.any=(m.group(1)=='any'); return nf
     if re.match(r'^Vec::<.*>::push$',c): deref(args[0]).items.append(args[1]); return Unit()
     if re.match(r'^Vec::<.*>::len$',c):
         v=deref(args[0])
